@@ -3,15 +3,15 @@ NEXT GenNext
 CONSTANTS
   Unit = 8
   TickMs = 125
-  Family = "fixed"
-  Bursts = {2}
-  Rates <- RatesFin
-  SetRates <- NoRates
-  Ns = {1, 2}
+  Family = "zero"
+  Bursts = {0, 1, 2}
+  Rates <- RatesZero
+  SetRates <- RatesZero
+  Ns = {0, 1, 3}
   Dts <- GDtsQuick
   MaxEvents = 5
   MaxRes = 2
-  Kinds <- KAll
+  Kinds <- KNoDelay
   Deviation = "none"
 INVARIANT Emit
 CHECK_DEADLOCK FALSE
